@@ -6,7 +6,8 @@ import math
 from hypothesis import strategies as st
 from voluptuous import Schema, Required
 
-from vlib.core import Part, Violation, Discard, watchdog, call
+from vlib import rivals
+from vlib.core import call_twice, Part, Violation, Discard, watchdog, call
 
 from mitxgraders import SumGrader
 from mitxgraders.sampling import VariableSamplingSet, set_seed
@@ -373,12 +374,16 @@ def run_library(spec, rec):
                 rec.note('companion-raised')
 
     def go():
-        if not spec.get('no_companion'):
+        if not spec.get('no_companion') and spec['seed'] % 2 == 0:
             companion()
-        set_seed(spec['seed'])
         grader = SumGrader(**cfg)
-        with watchdog(60):
-            return grader(None, inp)
+        rivals.after_build(grader)     # vlib/rivals.py: another SumGrader (cut-off 12, even terms only, ...) built and used now
+        with watchdog(120):
+            # the same submission twice on the same grader object: same outcome (vlib.core.call_twice)
+            k, v = call_twice(grader, lambda: set_seed(spec['seed']), None, inp)
+        if k == 'err':
+            raise v
+        return v
     out = call(go)
     rec.calls()
     return out, cfg['answers'], inp
@@ -1200,7 +1205,7 @@ def judge_errors(spec, rec):
 PARTS = [
     Part('ranges', 'enum', judge_ranges, items=items_ranges, exhaustive=True),
     Part('errors', 'enum', judge_errors, items=items_errors, exhaustive=True),
-    Part('sums', 'hyp', judge_value, strategy=strat_sums, budget={'quick': 4000, 'thorough': 150000}),
+    Part('sums', 'hyp', judge_value, strategy=strat_sums, budget={'quick': 3000, 'thorough': 120000}),
     Part('infinite', 'hyp', judge_value, strategy=strat_infinite, budget={'quick': 600, 'thorough': 15000}),
 ]
 
